@@ -830,6 +830,9 @@ func InterpReplay(P *Program, job *Job, v *Violation) (string, bool) {
 	in.resume(main)
 	in.sched.wg.Wait()
 	ab := r.abortV
+	if job.Verbose {
+		v.Trace = append([]string(nil), in.hostLog...)
+	}
 	switch v.Kind {
 	case "assert":
 		return "interp: assertion " + r.replayHit, r.replayHit == v.Label
